@@ -245,6 +245,8 @@ class Fn:
                     tgt = root_local(node['l'])
                     if tgt and node['l'].get('k') == 'path':
                         self.binds.setdefault(tgt, []).append(('expr', node['r']))
+                elif k == 'macro' and node['name'].split('::')[-1] in ('write', 'writeln') and node['args']:
+                    self._pending_writes.append(node)
                 elif k == 'mcall' and node['method'] in MUTATORS:
                     tgt = root_local(node['recv'])
                     r = node['recv']
@@ -261,7 +263,16 @@ class Fn:
                     for i, x in enumerate(v):
                         if isinstance(x, dict):
                             walk(x, node if 'k' in node else parent, (key, i))
+        self._pending_writes = []
         walk(self.body, None, 'body')
+        # write!(target, fmt, args..) appends to `target` when it is a local String
+        for node in self._pending_writes:
+            first = node['args'][0]
+            tn = self.nodes.get(first.get('id')) if first.get('how') == 'span' else None
+            if tn is not None:
+                tgt = root_local(tn)
+                if tgt and 'String' in (tn.get('ty', '') + self.bind_types.get(tgt, '')):
+                    self.binds.setdefault(tgt, []).append(('mutfmt', node))
 
     def walk(self, pred=None):
         """yield every expression-like node (dict with 'k')"""
@@ -364,8 +375,11 @@ class Program:
         self.field_writes_norm = {}
         for c in self.crates.values():
             for fn in c.all_fns():
+                derived = bool(fn.from_macro and fn.from_macro.startswith('derive:'))
                 for n in fn.walk():
                     k = n['k']
+                    if derived and k == 'struct':
+                        continue  # values built by derive expansions (visitors) are not program data flow
                     if k in ('call', 'mcall'):
                         cal = n.get('callee')
                         if cal:
